@@ -159,6 +159,12 @@ class Select(MarkerRelation):
         """
         return bool(self.slice.start) or self.slice.stop is not None
 
+    def attach_payload(self, payload: Any) -> None:
+        # Docstring inherited.
+        raise TypeError(
+            f"Cannot attach payload {payload} to relation {self}: Select marker relations never have a payload."
+        )
+
     def reapply(self, target: Relation, payload: Any | None = None) -> Select:
         # Docstring inherited.
         if payload is not None:
